@@ -72,6 +72,8 @@ def from_json(j):
         return getattr(p, ser._NARY[t])(tuple(from_json(c) for c in j["c"]))
     if t == "Tup":
         return tuple(from_json(c) for c in j["c"])
+    if t == "List":
+        return [from_json(c) for c in j["c"]]
     if t in ser._BIN:
         return getattr(p, ser._BIN[t])(from_json(j["a"]), from_json(j["b"]))
     if t in ser._UN:
@@ -111,6 +113,9 @@ def build(entry):
         _NP = False
     if entry["kind"] == "compiled":
         return CompiledExpression(e, list(entry["vars"]))
+    if entry.get("src"):
+        from pymbolic import parse
+        return parse(str(e))     # built from source: what the parser makes of the printed form
     return e
 
 
